@@ -135,6 +135,31 @@ Proof.
 Qed.
 Print Assumptions C19_runave_periodic_images.
 
+(* The window is part of the state (scalar variables).  A run of relative steps 0..n-1 interrupted after step S - the
+   state written there, S >= 1 on the stride grid, i.e. a step whose value was sampled - and resumed by a new job with
+   the same stride (it computes step S again without effect and counts its relative steps from S) writes, in its two
+   files together, exactly the lines of the uninterrupted run, for every carrier, window, stride and value sequence.
+   (When the state is written at a step off the grid, or the stride differs, the window is not restored and the resumed
+   job's analysis starts at S: C19_runave_any_type_any_start with t0 = S.) *)
+Theorem C19_runave_resumed_is_uninterrupted : forall (T : Type) (O : NumOps T) (L s it0 S : nat) (xs : list T),
+  (1 <= s)%nat -> (S mod s = 0)%nat -> (S < length xs)%nat ->
+  let h1 := hist (firstn (Datatypes.S S) xs) in
+  let st1 := runave_final O L s it0 (r0 (T:=T)) None h1 in
+  runave_run O L s it0 (r0 (T:=T)) None h1 ++
+  runave_run O L s (it0 + S) st1 (Some 0%nat) (hist_from 1 (skipn (Datatypes.S S) xs)) =
+  runave_run O L s it0 (r0 (T:=T)) None (hist xs).
+Proof. exact runave_resumed_is_uninterrupted. Qed.
+Print Assumptions C19_runave_resumed_is_uninterrupted.
+
+(* the resumed job may use a SHORTER window (the configuration of the new job legally differs): it keeps the newest
+   L'-1 values, which is the state a job with window L' would have reached on the same history - so, with
+   C19_runave_resumed_is_uninterrupted at L', it continues the series of an uninterrupted L'-run *)
+Theorem C19_runave_resumed_with_shorter_window : forall (T : Type) (O : NumOps T) (L L' s it0 : nat) (h : list (nat * T)),
+  (L' <= L)%nat ->
+  runave_resume L' (runave_final O L s it0 (r0 (T:=T)) None h) = runave_final O L' s it0 (r0 (T:=T)) None h.
+Proof. intros T O L L' s it0 h H. apply (runave_resume_shorter O L L' s it0 H h). Qed.
+Print Assumptions C19_runave_resumed_with_shorter_window.
+
 (* quaternion variables: the deviations are measured by cvm::quaternion::dist2, for which q and -q are the same
    rotation (unit quaternions: inner product in [-1, 1]) *)
 Theorem C19_runave_quaternion_metric : forall a b : list R, (-1 <= vdot Rops a b <= 1)%R ->
